@@ -469,7 +469,17 @@ class simplify_chained_calls(FuncADLNodeTransformer):
                 old.arg: new.arg
                 for old, new in zip(call_node.func.args.args, unique_func.args.args)
             }
+            # Parameters that are not given take their default, which belongs to the scope the
+            # lambda is written in.
+            defaults = call_node.func.args.defaults
+            params = unique_func.args.args
+            default_asts = [
+                (p.arg, self.visit(d))
+                for p, d in zip(params[len(params) - len(defaults) :], defaults)
+            ]
             with stack_frame(self._arg_stack):
+                for a_name, arg in default_asts:
+                    self._arg_stack.define_name(a_name, arg)
                 for a_name, arg in zip(unique_func.args.args, arg_asts):
                     self._arg_stack.define_name(a_name.arg, arg)
                 for k_name, arg in kw_asts:
